@@ -428,7 +428,8 @@ def asExport (j : Json) : R (Export Num MdVal) := do
   let md ← optF (asList asMdVal) j "md"
   let hk ← optF asText j "headerKey"
   let hv ← optF asText j "headerValue"
-  pure { obs, samp, rows, md, headerKey := hk, headerValue := hv }
+  let cn ← optF asText j "colName"
+  pure { obs, samp, rows, md, headerKey := hk, headerValue := hv, colName := cn.getD "#OTU ID".toList }
 
 def asImported (j : Json) : R (Except Err (Imported Num MdVal)) := do
   match optFld j "error" with
